@@ -396,6 +396,12 @@ def returned_values(g, params=()):
             elif isinstance(v, ast.Name):
                 ds = rd[p].get(v.id, set())
                 vals = [((valmap.get(d), byid.get(d[0])) if d[0] != 'param' else (None, g.entry)) for d in ds] or [(None, p)]
+                if v.id not in params:
+                    # a way to reach this return on which the local was never bound (UnboundLocalError instead of a value)
+                    from .hsmsites import defs_of_node
+                    dnodes = [n_ for n_ in g.nodes if any(nm_ == v.id for nm_, _v in defs_of_node(n_))]
+                    if dnodes and g.exists_path(g.entry, p, avoiding=dnodes):
+                        vals.append((ast.Name(id='<unbound>', ctx=ast.Load()), g.entry))
             else:
                 vals = [(v, p)]
             out.append((p, lab, vals))
